@@ -16,7 +16,7 @@ type NDHit struct {
 	Instr  ssa.Instruction
 	Pos    token.Pos
 	Detail string
-	Seq    int // ordinal of this kind within the function (construct key = kind + fn + seq)
+	Seq    int    // ordinal of this kind within the function (construct key = kind + fn + seq)
 	Recv   string // for kind "cache": the struct field (or global) holding the cache
 }
 
@@ -46,8 +46,12 @@ func ScanNondeterminism(fn *ssa.Function) []NDHit {
 					add("chan", in, "channel receive")
 				}
 			case *ssa.Store:
-				if g, ok := x.Addr.(*ssa.Global); ok {
+				if g := globalRoot(x.Addr); g != nil {
 					add("global-store", in, "store to package variable "+g.Pkg.Pkg.Name()+"."+g.Name())
+				}
+			case *ssa.MapUpdate:
+				if g := globalRoot(x.Map); g != nil {
+					add("global-store", in, "write to package-level map "+g.Pkg.Pkg.Name()+"."+g.Name())
 				}
 			case *ssa.Call:
 				n := CallName(&x.Call)
@@ -257,4 +261,28 @@ func LoopOfRange(rg *ssa.Range) *RangeLoop {
 		}
 	}
 	return lp
+}
+
+// globalRoot returns the package variable an address or container value is
+// rooted at: the variable itself, a field/element of it, or a field/element
+// reached through the pointer/map/slice it holds.
+func globalRoot(v ssa.Value) *ssa.Global {
+	for i := 0; i < 8; i++ {
+		switch x := v.(type) {
+		case *ssa.Global:
+			return x
+		case *ssa.FieldAddr:
+			v = x.X
+		case *ssa.IndexAddr:
+			v = x.X
+		case *ssa.UnOp:
+			if x.Op != token.MUL {
+				return nil
+			}
+			v = x.X
+		default:
+			return nil
+		}
+	}
+	return nil
 }
